@@ -78,7 +78,7 @@ class Hooks:
         g, x, y, verify = self.pk
         cv = g.curve()
         p, n = cv.p(), g.order()
-        if x is None or not verify or cv.cofactor() == 1 or not n:
+        if x is None or not verify or cv.cofactor() == 1 or not n:     # cofactor() None != 1: the test runs
             return "-"
         if not (0 <= x < p and 0 <= y < p) or not cv.contains_point(x, y):
             return "-"
@@ -138,13 +138,60 @@ def outcome_name(out):
 
 
 # ------------------------------------------------------------------------------------------------
+# the argument types the loaders accept for "bytes": every entry point is driven with each of them, same oracle
+BUFFER_KINDS = ("bytes", "bytearray", "mv-bytearray", "mv-bytes", "array")
+PEM_KINDS = ("bytes", "bytearray", "str")     # the PEM loaders take text: str, or bytes / bytearray (they call .split/.find)
+
+
+def wrap(kind, b):
+    import array
+    b = bytes(b)
+    if kind == "bytes":
+        return b
+    if kind == "bytearray":
+        return bytearray(b)
+    if kind == "mv-bytearray":
+        return memoryview(bytearray(b))       # a WRITABLE buffer: not hashable
+    if kind == "mv-bytes":
+        return memoryview(b)
+    if kind == "array":
+        return array.array("B", b)
+    if kind == "str":
+        return b.decode("utf-8")
+    raise ValueError(kind)
+
+
+def kinds_for(is_pem, b):
+    if not is_pem:
+        return BUFFER_KINDS
+    try:
+        ok = bytes(b).decode("utf-8").encode("utf-8") == bytes(b)
+    except UnicodeDecodeError:
+        ok = False
+    return PEM_KINDS if ok else PEM_KINDS[:2]
+
+
+class Rot:
+    """round-robin over the argument kinds, so that every stream exercises all of them without multiplying its size"""
+
+    def __init__(self):
+        self.i = 0
+
+    def pick(self, is_pem, b):
+        ks = kinds_for(is_pem, b)
+        self.i += 1
+        return ks[self.i % len(ks)]
+
+
+# ------------------------------------------------------------------------------------------------
 # wire formatting
 def curve_tok(cv):
     from ecdsa import curves as C
     if cv in C.curves:
         return cv.name
     g = cv.generator
-    return "toy:%d:%d:%d:%d:%d:%d:%d" % (cv.curve.p(), cv.curve.a(), cv.curve.b(), g.x(), g.y(), cv.order, cv.curve.cofactor())
+    h = cv.curve.cofactor()      # a CurveFp built without the cofactor reports None; the model's row carries 0 for it
+    return "toy:%d:%d:%d:%d:%d:%d:%d" % (cv.curve.p(), cv.curve.a(), cv.curve.b(), g.x(), g.y(), cv.order, 0 if h is None else h)
 
 
 def vk_xy(vk):
@@ -440,6 +487,7 @@ class CurveInfo:
         self.name = cv.name
         self.p, self.a, self.b = cv.curve.p(), cv.curve.a(), cv.curve.b()
         self.n, self.h = cv.order, cv.curve.cofactor()
+        self.declared_h = cv.curve.cofactor()
         self.G = (int(cv.generator.x()), int(cv.generator.y()))
         self.l = (self.p.bit_length() + 7) // 8      # SEC 1: ceil(log2 p / 8)
         self.nl = (self.n.bit_length() + 7) // 8
@@ -677,10 +725,12 @@ def mutate(rng, b):
 _TOY_CACHE = {}
 
 
-def toy_curve(p, a, b):
+def toy_curve(p, a, b, declare_h=True):
     """-> CurveInfo of y^2 = x^3 + ax + b over F_p with G a point of the largest prime order, h = #E / n, and the
-    explicit subgroup <G>; None when no usable generator exists"""
-    key = (p, a, b)
+    explicit subgroup <G>; None when no usable generator exists.  declare_h=False builds the CurveFp WITHOUT the optional
+    cofactor argument (cofactor() is None: the code then runs the subgroup test, since None != 1); `ci.h` stays the true
+    cofactor (used by the oracle and the K2 predicate), `ci.declared_h` is what the object says."""
+    key = (p, a, b, declare_h)
     if key in _TOY_CACHE:
         return _TOY_CACHE[key]
     from ecdsa.ellipticcurve import CurveFp, PointJacobi
@@ -702,13 +752,14 @@ def toy_curve(p, a, b):
     ci = None
     if best and (4 * a ** 3 + 27 * b ** 2) % p:
         G, n = best
-        cf = CurveFp(p, a, b, N // n)
+        cf = CurveFp(p, a, b, N // n) if declare_h else CurveFp(p, a, b)
         cv = Curve("toy", cf, PointJacobi(cf, G[0], G[1], 1, n, generator=True), TOY_OID)
         sub, R = set(), G
         while R is not None:
             sub.add(R)
             R = aff_add(R, G, p, a)
         ci = CurveInfo(cv, subgroup=sub)
+        ci.h = N // n
         ci.points = pts
     _TOY_CACHE[key] = ci
     return ci
@@ -716,6 +767,44 @@ def toy_curve(p, a, b):
 
 # (p, a, b): cofactors 1, 1, -, 1, 4 (K2), -, -, 3 (odd: exact), 2 (K2), 5 (odd: exact)
 TOYS = [(11, 1, 6), (13, 2, 4), (11, 0, 2), (17, 1, 3), (23, 1, 1), (13, 0, 3), (11, 0, 1), (19, 0, 4), (19, 2, 5), (29, 1, 7)]
+# the same curves built WITHOUT the optional cofactor (true cofactors 4, 3, 2, 5) and a 244-point curve over GF(223) (4 * 61)
+TOYS_NO_H = [(23, 1, 1), (19, 0, 4), (19, 2, 5), (29, 1, 7), (223, 1, 1)]
+
+
+def all_toys():
+    """every toy CurveInfo of the truth tables: declared cofactor, and undeclared (cofactor() is None)"""
+    out = [toy_curve(*t) for t in TOYS] + [toy_curve(*t, declare_h=False) for t in TOYS_NO_H]
+    return [ci for ci in out if ci is not None]
+
+
+def named_without_h(cv, true_h):
+    """a user-defined Curve with the parameters of a named curve but a CurveFp created without the cofactor"""
+    from ecdsa.ellipticcurve import CurveFp, PointJacobi
+    from ecdsa.curves import Curve
+    cf = CurveFp(cv.curve.p(), cv.curve.a(), cv.curve.b())
+    g = cv.generator
+    c2 = Curve(cv.name + "_noh", cf, PointJacobi(cf, int(g.x()), int(g.y()), 1, cv.order, generator=True), TOY_OID)
+    ci = CurveInfo(c2)
+    ci.h = true_h
+    return ci
+
+
+def toy_candidates(ci, step=1):
+    """byte strings for the truth table of a toy curve (coordinate length 1): every 2-byte string (every `step`-th), and
+    (prefix, x, y) over the full grid for small p, over the curve's points and their neighbours for larger p"""
+    import itertools
+    cands = [bytes(b) for b in itertools.product(range(256), repeat=2)][::step]
+    if ci.p <= 40:
+        grid = [(x, y) for x in list(range(ci.p + 2)) + [255] for y in list(range(ci.p + 2)) + [255]]
+    else:
+        grid = set()
+        for (x, y) in ci.points:
+            grid.update([(x, y), (x, (y + 1) % ci.p), ((x + 1) % ci.p, y)])
+        grid.update([(0, 0), (ci.p, 0), (0, ci.p), (255, 255), (ci.p - 1, ci.p - 1)])
+        grid = sorted(g for g in grid if g[0] < 256 and g[1] < 256)
+    cands += [bytes((f, x, y)) for f in range(9) for (x, y) in grid]
+    cands += [b"", b"\x04", b"\x02", bytes([4, 1, 2, 3])]
+    return cands
 
 
 # ------------------------------------------------------------------------------------------------
